@@ -3,7 +3,7 @@ original Python operation when no operand is symbolic."""
 import sys, builtins, z3
 from . import core
 from .core import (SymInt, SymBool, SymBytes, SymStr, Inconclusive, Control, lift, is_sym, And, Or, Not, Ite)
-from .shims import struct_shim, socket_shim, array_shim
+from .shims import struct_shim, socket_shim, array_shim, math_shim
 
 _SYM = (SymInt, SymBool, SymBytes, SymStr)
 
